@@ -12,4 +12,5 @@ for q in sys.argv[3:]:
     solve.discharge_all(ex.obls)
     for o in ex.obls:
         if o.result!='proved' or o.solver_s>0.5: print(o.name, o.result, o.backend, round(o.solver_s,3), o.reason or '')
+    for w in ex.vacuity: print('VACUOUS:', w)
     print(q, len(ex.obls), 'obligations', sum(o.result=='proved' for o in ex.obls), 'proved')
